@@ -16,7 +16,7 @@ def _sig(case):
     return json.dumps(case.get("pipe"), sort_keys=True) + json.dumps(case.get("tables"), sort_keys=True)[:2000]
 
 
-def with_oracle(base, oracle_fn, name=None, oracle_opts=None, every=1, **suite_opts):
+def with_oracle(base, oracle_fn, name=None, oracle_opts=None, every=1, ignore_kinds=(), **suite_opts):
     oracle_opts = dict(oracle_opts or {})
 
     class _S(base):
@@ -34,16 +34,24 @@ def with_oracle(base, oracle_fn, name=None, oracle_opts=None, every=1, **suite_o
             c.setdefault("meta", {})
             self.oracle_runs += 1
             fs = oracle_fn(c, **oracle_opts) or []
+            if ignore_kinds:
+                # failure kinds outside the property's statement (e.g. the reference executor itself raised, so there
+                # is no result to compare with): counted, not judged
+                kept = [f for f in fs if not any(k in f["kind"] for k in ignore_kinds)]
+                self.ignored = getattr(self, "ignored", 0) + (len(fs) - len(kept))
+                fs = kept
             if not fs:
                 return None
-            fs = sorted(fs, key=lambda f: 0 if not f.get("finding") else 1)
+            fs = sorted(fs, key=lambda f: 0 if not (f.get("finding") or f.get("candidate")) else 1)
             f = fs[0]
             self._fail[_sig(case)] = f
             return f"{f['kind']}: {f['detail']}"
 
         def finding(self, case, real_out, why):
             f = self._fail.get(_sig(case))
-            return f.get("finding") if f else None
+            # `candidate` ids (defects first seen by the oracles) count exactly like DESIGN's `finding` ids: whether an id
+            # suppresses anything is decided by known_findings.json alone
+            return (f.get("finding") or f.get("candidate")) if f else None
 
     if name:
         if getattr(base, "corr", True) and getattr(base, "name", None) and not getattr(base, "driver_suite", None):
